@@ -1,6 +1,7 @@
 package main
 
 import (
+	"math/big"
 	"fmt"
 	"go/token"
 	"go/types"
@@ -30,6 +31,7 @@ type loopInfo struct {
 	// head heaps whose cells outside the root modifies clause were kept by the havoc; every
 	// back edge must show they are still unchanged there (the loop frame invariant).
 	frameHeads map[Sort]Term
+	frameAll   bool // the loop body may write any heap sort: the back-edge check covers all of them
 }
 
 type Frame struct {
@@ -1328,6 +1330,7 @@ type effects struct {
 	sorts  map[Sort][]Term // sort -> rid terms of the objects written; nil slice entry list with unknown=true
 	unk    map[Sort]bool
 	maps   bool
+	mapKV  map[[2]Sort]bool // maps of these key/value sorts may be written (any root)
 	alloc  bool
 	ghosts bool
 }
@@ -1566,7 +1569,33 @@ func (fr *Frame) enterLoop(li *loopInfo, pre *State, phis []*ssa.Phi, phiEntry m
 	// havoc
 	hs := pre.clone()
 	ef := fr.loopEffects(li)
-	if ef.all {
+	if allowed, ok := vc.loopFrameAllowed(); ef.all && ok {
+		// the body may write anywhere, but the function's modifies clause bounds what may change
+		// in pre-existing objects: cells outside it keep their value (re-proved at every back edge)
+		var sl []string
+		for s := range vc.heapReg {
+			sl = append(sl, string(s))
+		}
+		sort.Strings(sl)
+		li.frameHeads = map[Sort]Term{}
+		li.frameAll = true
+		for _, ss := range sl {
+			s := Sort(ss)
+			keep := fmt.Sprintf("(and (< (rid q!r) %s) (not (or %s false)))", vc.entryAlloc.S, joinTerms(allowed[s]))
+			nh := vc.MixHeap(s, vc.heap(hs, s), Term{keep, SBool})
+			hs.heaps[s] = nh
+			li.frameHeads[s] = nh
+		}
+		hs.maps = map[string]Term{}
+		hs.mbase = vc.freshName("ep")
+		hs.lazyParents, hs.lazySels = nil, nil
+		na := vc.Fresh("alloc", SInt)
+		hs.assume(Ge(na, hs.alloc))
+		hs.alloc = na
+		for _, ss := range sl {
+			hs.touch(Sort(ss))
+		}
+	} else if ef.all {
 		vc.havocAll(hs)
 	} else {
 		var sl []string
@@ -1626,7 +1655,11 @@ func (fr *Frame) enterLoop(li *loopInfo, pre *State, phis []*ssa.Phi, phiEntry m
 		if ef.maps {
 			hs.maps = map[string]Term{}
 			hs.mbase = vc.freshName("ep")
+			hs.lazyParents, hs.lazySels = nil, nil
 		} else {
+			for kv := range ef.mapKV {
+				vc.havocMapsOfSorts(hs, kv[0], kv[1])
+			}
 			for _, me := range ef.mapRoots {
 				domH := vc.mapHeap(hs, "dom", me.ks, me.vs)
 				valH := vc.mapHeap(hs, "val", me.ks, me.vs)
@@ -1675,6 +1708,15 @@ func (fr *Frame) enterLoop(li *loopInfo, pre *State, phis []*ssa.Phi, phiEntry m
 		}
 		f := vc.Fresh(phi.Name()+"_"+phi.Comment, srt)
 		hs.assume(vc.rangeAssumption(f, phi.Type(), hs.alloc))
+		// compiler-generated range counters start at -1 / 0 and only count up to a length
+		if f.Sort == SInt {
+			switch phi.Comment {
+			case "rangeindex":
+				hs.assume(And(Ge(f, IntLit(-1)), Lt(f, IntLitBig(pow2(62)))))
+			case "rangeint.iter":
+				hs.assume(And(Ge(f, IntLit(0)), Lt(f, IntLitBig(new(big.Int).Sub(pow2(63), big.NewInt(1))))))
+			}
+		}
 		fr.vals[phi] = f
 		li.phiHavoc[phi] = f
 	}
@@ -1730,11 +1772,22 @@ func (fr *Frame) loopBackEdge(li *loopInfo, from *ssa.BasicBlock, st *State) err
 		for s := range li.frameHeads {
 			sl = append(sl, string(s))
 		}
+		if li.frameAll {
+			for s := range vc.heapReg {
+				if _, ok := li.frameHeads[s]; !ok {
+					sl = append(sl, string(s))
+				}
+			}
+		}
 		sort.Strings(sl)
 		var parts []Term
 		for _, ss := range sl {
 			s := Sort(ss)
-			head, end := li.frameHeads[s], vc.heap(st, s)
+			head, ok := li.frameHeads[s]
+			if !ok {
+				head = vc.heap(li.hdrState, s)
+			}
+			end := vc.heap(st, s)
 			if head.S == end.S {
 				continue
 			}
